@@ -196,7 +196,7 @@ def find_function(tree, name, cls=None, decorator=None):
         else:
             raise TranslationError("class %s not found" % cls)
     for n in body:
-        if isinstance(n, ast.FunctionDef) and n.name == name:
+        if isinstance(n, (ast.FunctionDef, ast.AsyncFunctionDef)) and n.name == name:
             decos = [attr_path(d) if isinstance(d, ast.Attribute) else getattr(d, "id", None) for d in n.decorator_list]
             if decorator is None and not decos:
                 return n
